@@ -180,6 +180,26 @@ CHECKS = {
             "optimisation runs are sampled tests; templates > 1e8 items carry a guard.",
             "Lean 4 proof (guillotine-cut invariants with explicit layout) + correspondence with an exact binary64 model", "6/C17",
             ["Props.C17LB"]),
+    "C12": ("other",
+            "Independent VERIFIED ORACLES + SAMPLED RUNS (not a proof of the universal statement, which quantifies over whole runs of "
+            "moptipy algorithms under numpy RNG and budgets): 15 Lean corollaries (component purity re-exported from C01/C02/C05/C07/"
+            "C08/C09/C15 + an abstract search process: best-so-far bookkeeping is true, within budget and replicable for scratch-"
+            "independent objectives); every bundled setup is built with the repository's own functions, run twice in-process plus a "
+            "stratified third run in a fresh interpreter, and its final solution, logged value and parsed log files are judged by the "
+            "compiled Lean specifications (Pack.Feasible, objective specs, cyclic tour sum, plan walk, QAP double sum, error count).",
+            TB + "moptipy Execution/Process/RNG determinism assumed; the shape of Model/Search.lean is an assumption about moptipy; known "
+            "finding control_run_raises (pinned moptipy/pycommons cannot render the CMA-ES restart log).",
+            "verified Lean oracles applied to sampled replicated runs (level: other)", "6/C12"),
+    "C19": ("proof",
+            "22 Lean theorems: compact instance strings, instance-space strings, game plans and orderings round-trip for ALL valid objects "
+            "(character level, no size bound; derived attributes are functions of the parsed fields; readers only return members of the "
+            "space); PackingResult and PackingStatistics CSV tables round-trip at table (cell) level for all record sets in the stated "
+            "domain (heterogeneous objectives/bin bounds/optional columns, trimmed and padded rows), MODULO the embedded moptipy/pycommons "
+            "record codecs (explicit hypotheses). Packing text: token layer here, validator in C04. Tie: in-process correspondence incl. "
+            "real experiment logs, perturbed tables, field-by-field comparison.",
+            TB + "CSV: cells, not characters; bin-bound keys inside the scope 'bins.lowerBound' (what the package produces); known finding "
+            "stats_goal_mixed_moptipy (dependency).",
+            "Lean 4 proof (decimal text round trips, CSV column-layout model) + correspondence", "6/C19"),
 }
 NOT_YET = "check not built yet (work in progress; see DESIGN.md section 6)"
 
